@@ -7,7 +7,7 @@ from trie.utils.db import ScratchDB  # noqa: E402
 import hexlib  # noqa: E402
 
 ID = "C17"
-LEAN_IMPORTS = ["PyTrie.Props.C17"]
+LEAN_IMPORTS = ["PyTrie.Props.C17", "PyTrie.Props.C17More"]
 THEOREMS = [
     "PyTrie.Props.C17.wrapped_untouched",
     "PyTrie.Props.C17.read_latest",
@@ -15,6 +15,10 @@ THEOREMS = [
     "PyTrie.Props.C17.commit_spec",
     "PyTrie.Props.C17.abort_spec",
     "PyTrie.Props.C17.commit_failure_spec",
+    "PyTrie.Props.C17.copy_spec",
+    "PyTrie.Props.C17.copy_eq_commit_with_deletes",
+    "PyTrie.Props.C17.runBlock_clean",
+    "PyTrie.Props.C17.runBlocks_spec",
 ]
 RULE = ("random pre-existing database contents, then a batch_commit block (do_deletes on/off) containing a random script of "
         "writes, deletes, reads, membership tests and copy() over keys that are pre-existing / new / written then deleted / "
@@ -37,33 +41,43 @@ class Boom(Exception):
     pass
 
 
+def gen_block(rng, keys):
+    script = []
+    for _ in range(rng.randint(0, 12)):
+        k = rng.choice(keys)
+        r = rng.random()
+        if r < 0.35:
+            script.append(["set", k.hex(), (bytes([rng.randrange(256)]) * rng.randint(0, 2)).hex()])
+        elif r < 0.55:
+            script.append(["del", k.hex()])
+        elif r < 0.75:
+            script.append(["get", k.hex()])
+        elif r < 0.9:
+            script.append(["in", k.hex()])
+        else:
+            script.append(["copy"])
+    q = rng.random()
+    if q < 0.45:
+        ex = ["ok"]
+    elif q < 0.8:
+        ex = ["raise", rng.randint(0, len(script))]
+    else:
+        ex = ["failwrite", rng.randint(0, 4)]
+    return {"dd": rng.random() < 0.5, "script": script, "exit": ex}
+
+
 def gen_cases(rng, tier):
     n = 3000 if tier == "quick" else 60000
     for i in range(n):
         keys = [bytes([rng.randrange(6)]) for _ in range(rng.randint(1, 5))] + [b"", b"\xff\x00"]
         pre = {rng.choice(keys): bytes([rng.randrange(256)]) * rng.randint(0, 3) for _ in range(rng.randint(0, 4))}
-        script = []
-        for _ in range(rng.randint(0, 12)):
-            k = rng.choice(keys)
-            r = rng.random()
-            if r < 0.35:
-                script.append(["set", k.hex(), (bytes([rng.randrange(256)]) * rng.randint(0, 2)).hex()])
-            elif r < 0.55:
-                script.append(["del", k.hex()])
-            elif r < 0.75:
-                script.append(["get", k.hex()])
-            elif r < 0.9:
-                script.append(["in", k.hex()])
-            else:
-                script.append(["copy"])
-        q = rng.random()
-        if q < 0.45:
-            ex = ["ok"]
-        elif q < 0.8:
-            ex = ["raise", rng.randint(0, len(script))]
-        else:
-            ex = ["failwrite", rng.randint(0, 4)]
-        yield {"pre": sorted((k.hex(), v.hex()) for k, v in pre.items()), "dd": rng.random() < 0.5, "script": script, "exit": ex}
+        c = gen_block(rng, keys)
+        c["pre"] = sorted((k.hex(), v.hex()) for k, v in pre.items())
+        if rng.random() < 0.4:
+            # the SAME ScratchDB object used for further blocks (C17.runBlocks_spec): each starts with an empty buffer
+            # over the wrapped database the previous one left
+            c["more"] = [gen_block(rng, keys) for _ in range(rng.randint(1, 2))]
+        yield c
 
 
 def fmt(d):
@@ -77,87 +91,97 @@ def run_case(case):
     sdb = ScratchDB(wrapped)
     res.emit("sdb.reset", "ok")
     res.emit("sdb.new %s" % fmt(pre), "ok")
-    last = {}            # key -> latest buffered action: bytes value or None (deleted)
-    ex = case["exit"]
-    raise_at = ex[1] if ex[0] == "raise" else None
-    nontrivial = False
-    outcome = None
-    try:
-        # "deletes are applied only if requested": not requesting them is also done by leaving the argument out
-        kw = {} if (not case["dd"] and len(case["script"]) % 2 == 0) else {"do_deletes": case["dd"]}
-        with sdb.batch_commit(**kw):
-            for i, op in enumerate(case["script"]):
-                if raise_at is not None and i == raise_at:
-                    raise (BoomBase() if len(case["script"]) % 2 else Boom())
-                kind = op[0]
-                k = bytes.fromhex(op[1]) if len(op) > 1 else None
-                if kind == "set":
-                    v = bytes.fromhex(op[2])
-                    sdb[k] = v
-                    res.emit("sdb.set %s %s" % (hx(k), hx(v)), "ok")
-                    nontrivial |= k in last
-                    last[k] = v
-                elif kind == "del":
-                    del sdb[k]
-                    res.emit("sdb.del %s" % hx(k), "ok")
-                    nontrivial |= k in last
-                    last[k] = None
-                elif kind == "get":
-                    try:
-                        v = sdb[k]
-                        out = "v " + hx(v)
-                    except KeyError:
-                        v, out = None, "exn KeyError"
-                    res.emit("sdb.get %s" % hx(k), out)
-                    want = last[k] if last.get(k) is not None else pre.get(k)
-                    if v != want:
-                        res.fail("read-wrong", "sdb[%r] = %r; latest buffered action %r, wrapped holds %r" % (k, v, last.get(k, "none"), pre.get(k)))
-                elif kind == "in":
-                    c = k in sdb
-                    res.emit("sdb.contains %s" % hx(k), str(c))
-                    want = True if last.get(k) is not None else (k in pre)
-                    if c != want:
-                        res.fail("membership-wrong", "%r in sdb = %r; latest buffered action %r, wrapped has it: %r" % (k, c, last.get(k, "none"), k in pre))
-                else:
-                    res.emit("sdb.copy", fmt(sdb.copy()))
-                if dict(wrapped) != pre:
-                    res.fail("wrapped-written-while-open", "the wrapped database changed while the batch was open (after %r)" % (op,))
-                res.emit("sdb.wrapped", fmt(wrapped))
-            if raise_at is not None:
-                raise (BoomBase() if len(case["script"]) % 2 else Boom())
-            if ex[0] == "failwrite":
-                wrapped.fail_after = ex[1]
-        outcome = "committed"
-        res.emit("sdb.commit %d %s" % (1 if case["dd"] else 0, ex[1] if ex[0] == "failwrite" else "none"), "ok")
-    except (Boom, BoomBase) as e:
-        outcome = "aborted"
-        res.tags.add("abort-by:" + type(e).__name__)
-        res.emit("sdb.abort", "ok")
-    except hexlib.WriteFailed:
-        outcome = "write-failed"
-        res.emit("sdb.commit %d %d" % (1 if case["dd"] else 0, ex[1]), "exn WriteFailed")
-    wrapped.fail_after = None
-    res.emit("sdb.wrapped", fmt(wrapped))
-    res.emit("sdb.cachelen", str(len(sdb.cache)))
-    if len(sdb.cache) != 0:
-        res.fail("buffer-not-empty", "after the block (%s) the buffer still holds %d entries" % (outcome, len(sdb.cache)))
-    if outcome == "aborted" and dict(wrapped) != pre:
-        res.fail("abort-changed-wrapped", "the block left by exception, yet the wrapped database changed")
-    if outcome == "committed":
-        want = dict(pre)
-        for k, v in last.items():
-            if v is not None:
-                want[k] = v
-            elif case["dd"]:
-                want.pop(k, None)
-        if dict(wrapped) != want:
-            res.fail("commit-wrong", "after commit (do_deletes=%r) wrapped = %r, expected %r" % (case["dd"], dict(wrapped), want))
-    if outcome == "write-failed":
-        for k, v in wrapped.items():
-            if pre.get(k) != v and last.get(k) != v:
-                res.fail("failed-commit-garbage", "after a failing commit write, wrapped[%r] = %r is neither old nor buffered" % (k, v))
-    res.tags.add("exit:" + outcome)
-    res.tags.add("dd:%s" % case["dd"])
+    state = {"nontrivial": False}
+
+    def one_block(blk, pre):
+        last = {}            # key -> latest buffered action: bytes value or None (deleted)
+        ex = blk["exit"]
+        raise_at = ex[1] if ex[0] == "raise" else None
+        nontrivial = False  # per block
+        outcome = None
+        try:
+            # "deletes are applied only if requested": not requesting them is also done by leaving the argument out
+            kw = {} if (not blk["dd"] and len(blk["script"]) % 2 == 0) else {"do_deletes": blk["dd"]}
+            with sdb.batch_commit(**kw):
+                for i, op in enumerate(blk["script"]):
+                    if raise_at is not None and i == raise_at:
+                        raise (BoomBase() if len(blk["script"]) % 2 else Boom())
+                    kind = op[0]
+                    k = bytes.fromhex(op[1]) if len(op) > 1 else None
+                    if kind == "set":
+                        v = bytes.fromhex(op[2])
+                        sdb[k] = v
+                        res.emit("sdb.set %s %s" % (hx(k), hx(v)), "ok")
+                        nontrivial |= k in last
+                        last[k] = v
+                    elif kind == "del":
+                        del sdb[k]
+                        res.emit("sdb.del %s" % hx(k), "ok")
+                        nontrivial |= k in last
+                        last[k] = None
+                    elif kind == "get":
+                        try:
+                            v = sdb[k]
+                            out = "v " + hx(v)
+                        except KeyError:
+                            v, out = None, "exn KeyError"
+                        res.emit("sdb.get %s" % hx(k), out)
+                        want = last[k] if last.get(k) is not None else pre.get(k)
+                        if v != want:
+                            res.fail("read-wrong", "sdb[%r] = %r; latest buffered action %r, wrapped holds %r" % (k, v, last.get(k, "none"), pre.get(k)))
+                    elif kind == "in":
+                        c = k in sdb
+                        res.emit("sdb.contains %s" % hx(k), str(c))
+                        want = True if last.get(k) is not None else (k in pre)
+                        if c != want:
+                            res.fail("membership-wrong", "%r in sdb = %r; latest buffered action %r, wrapped has it: %r" % (k, c, last.get(k, "none"), k in pre))
+                    else:
+                        res.emit("sdb.copy", fmt(sdb.copy()))
+                    if dict(wrapped) != pre:
+                        res.fail("wrapped-written-while-open", "the wrapped database changed while the batch was open (after %r)" % (op,))
+                    res.emit("sdb.wrapped", fmt(wrapped))
+                if raise_at is not None:
+                    raise (BoomBase() if len(blk["script"]) % 2 else Boom())
+                if ex[0] == "failwrite":
+                    wrapped.fail_after = ex[1]
+            outcome = "committed"
+            res.emit("sdb.commit %d %s" % (1 if blk["dd"] else 0, ex[1] if ex[0] == "failwrite" else "none"), "ok")
+        except (Boom, BoomBase) as e:
+            outcome = "aborted"
+            res.tags.add("abort-by:" + type(e).__name__)
+            res.emit("sdb.abort", "ok")
+        except hexlib.WriteFailed:
+            outcome = "write-failed"
+            res.emit("sdb.commit %d %d" % (1 if blk["dd"] else 0, ex[1]), "exn WriteFailed")
+        wrapped.fail_after = None
+        res.emit("sdb.wrapped", fmt(wrapped))
+        res.emit("sdb.cachelen", str(len(sdb.cache)))
+        if len(sdb.cache) != 0:
+            res.fail("buffer-not-empty", "after the block (%s) the buffer still holds %d entries" % (outcome, len(sdb.cache)))
+        if outcome == "aborted" and dict(wrapped) != pre:
+            res.fail("abort-changed-wrapped", "the block left by exception, yet the wrapped database changed")
+        if outcome == "committed":
+            want = dict(pre)
+            for k, v in last.items():
+                if v is not None:
+                    want[k] = v
+                elif blk["dd"]:
+                    want.pop(k, None)
+            if dict(wrapped) != want:
+                res.fail("commit-wrong", "after commit (do_deletes=%r) wrapped = %r, expected %r" % (blk["dd"], dict(wrapped), want))
+        if outcome == "write-failed":
+            for k, v in wrapped.items():
+                if pre.get(k) != v and last.get(k) != v:
+                    res.fail("failed-commit-garbage", "after a failing commit write, wrapped[%r] = %r is neither old nor buffered" % (k, v))
+        state["nontrivial"] |= nontrivial
+        res.tags.add("exit:" + outcome)
+        res.tags.add("dd:%s" % blk["dd"])
+
+    one_block(case, pre)
+    for extra in case.get("more", []):
+        res.tags.add("object-reused-for-another-block")
+        one_block(extra, dict(wrapped))
+    nontrivial = state["nontrivial"]
     res.nontrivial = nontrivial
     res.state_key = common.sha(case)
     return res
